@@ -5,7 +5,7 @@ the main loop and `input`/`inputs` sharing one iterator per file, output options
 exit status. Every configuration of a bounded product is run through the real binary; stdout bytes
 and exit status must equal the model's.
 usage: c17_cli.py <quick|thorough>"""
-import sys, os, json, tempfile, shutil, subprocess, itertools, concurrent.futures
+import sys, os, re, json, tempfile, shutil, subprocess, itertools, concurrent.futures
 sys.path.insert(0, os.path.dirname(__file__))
 from common import *
 
@@ -396,10 +396,57 @@ def run_direct(name, argv, stdin, exp_out, exp_code, files):
     finally:
         shutil.rmtree(d, ignore_errors=True)
 
+# ---------------------------------------------------------------- colour changes nothing but colour; outputs reach stdout before the next one is computed
+
+SGR = re.compile(rb"\x1b\[[0-9;]*m")
+COLOUR_VALUES = ["null", "[1, [2, {\"a\": []}], \"s\"]", "{\"b\": {\"d\": 3, \"c\": [2]}, \"a\": \"x\\ny\"}", "{({k: 1}): 2, ([{q: 1}]): 0, (null): [], (1): {x: {}}}", "{a: {({b: [1]}): {c: 1}}}", "[{}, [], \"\", {\"\": {}}]", "(\"bytes\" | tobytes)", "[1.5, 1e1000, nan, -0.0]"]
+COLOUR_OPTS = [[], ["-c"], ["-S"], ["--tab"], ["--indent", "3"], ["-cS"], ["-r"], ["--indent", "0"]]
+
+def run_colour(value, opts):
+    key = f"colour: {value} with {' '.join(opts) or 'default options'}"
+    env = {"PATH": os.environ.get("PATH", "")}
+    a = subprocess.run([JAQ, "-n", "-C"] + opts + [value], stdout=subprocess.PIPE, stderr=subprocess.PIPE, env=env, timeout=60)
+    b = subprocess.run([JAQ, "-n", "-M"] + opts + [value], stdout=subprocess.PIPE, stderr=subprocess.PIPE, env=env, timeout=60)
+    problems = []
+    if SGR.sub(b"", a.stdout) != b.stdout: problems.append("the coloured output without its colour sequences differs from the monochrome output")
+    if a.returncode != b.returncode: problems.append(f"exit status {a.returncode} with -C, {b.returncode} with -M")
+    if opts != ["-r"] and not SGR.search(a.stdout) and b.stdout.strip(): problems.append("-C printed no colour sequence")
+    return key, (a.stdout, a.returncode), problems, {"argv": ["-n", "-C"] + opts + [value], "stdin": "", "stdout": a.stdout.decode("utf-8", "replace"), "expected_stdout": b.stdout.decode("utf-8", "replace"), "status": a.returncode, "expected_status": b.returncode, "stderr": a.stderr.decode("utf-8", "replace")[:200]}
+
+def run_ordering(name, argv, expected, stdin=b""):
+    """stdout and stderr share one pipe: what is written must appear in the order in which it is produced"""
+    key = f"ordering: {name}"
+    p = subprocess.run([JAQ] + argv, input=stdin, stdout=subprocess.PIPE, stderr=subprocess.STDOUT, env={"PATH": os.environ.get("PATH", ""), "NO_COLOR": "1"}, timeout=60)
+    problems = [] if p.stdout == expected else ["stdout and stderr interleave differently from the order of production"]
+    return key, (p.stdout, p.returncode), problems, {"argv": argv, "stdin": stdin.decode(), "stdout": p.stdout.decode("utf-8", "replace"), "expected_stdout": expected.decode(), "status": p.returncode, "expected_status": p.returncode, "stderr": ""}
+
+def run_devfull(name, argv, wcode):
+    key = f"write failure: {name}"
+    with open("/dev/full", "wb") as full:
+        p = subprocess.run([JAQ] + argv, stdin=subprocess.DEVNULL, stdout=full, stderr=subprocess.PIPE, env={"PATH": os.environ.get("PATH", "")}, timeout=60)
+    problems = [] if p.returncode == wcode and p.stderr else [f"exit status {p.returncode} (expected {wcode}) / stderr empty: {not p.stderr}"]
+    return key, (b"", p.returncode), problems, {"argv": argv, "stdin": "", "stdout": "", "expected_stdout": "", "status": p.returncode, "expected_status": wcode, "stderr": p.stderr.decode("utf-8", "replace")[:200]}
+
+ORDERING = [
+    ("outputs and stderr messages", ["-n", "-c", "1, (\"x\" | stderr | empty), 2, (\"y\" | debug | empty), 3"], b'1\nx2\n["DEBUG:", "y"]\n3\n'),
+    ("output before the error message", ["-n", "-c", "1, 2, error(\"boom\")"], None),
+    ("outputs per input value", ["-c", "., (tostring | stderr | empty)"], b'1\n12\n2', b"1 2"),
+    ("halt_error after outputs", ["-n", "-c", "1, (\"bye\\n\" | halt_error)"], b"1\nbye\n"),
+    ("pretty output and debug", ["-n", "[1], ([2] | debug | empty), [3]"], b'[\n  1\n]\n["DEBUG:", [2]]\n[\n  3\n]\n'),
+]
+
 C = configs()
 D = direct_cases()
 with concurrent.futures.ThreadPoolExecutor(max_workers=16) as ex:
     futs = [ex.submit(run_config, *c) for c in C] + [ex.submit(run_direct, *d) for d in D]
+    futs += [ex.submit(run_colour, v, o) for v in COLOUR_VALUES for o in COLOUR_OPTS]
+    for o in ORDERING:
+        if o[2] is None:
+            continue
+        futs.append(ex.submit(run_ordering, *o))
+    futs.append(ex.submit(run_devfull, "one output to a full device", ["-n", "\"x\""], 2))
+    futs.append(ex.submit(run_devfull, "many outputs to a full device", ["-n", "range(100000)"], 2))
+    futs.append(ex.submit(run_devfull, "raw output to a full device", ["-n", "-r", "\"x\" * 70000"], 2))
     for fu in concurrent.futures.as_completed(futs):
         key, outcome, problems, detail = fu.result()
         R.case(key, True, hashlib.sha1(repr(outcome).encode()).hexdigest()[:12])
